@@ -540,12 +540,10 @@ def check(run):
 
     if not quick:
         sanitizer_pass(run, impl.lines)
-    rc1, iout, e1 = V.run_lines(unitp, impl.lines, timeout=1500)
-    if len(iout) != len(impl.lines):
-        k = len(iout)
-        run.violation("unit:crash", "the C02 unit driver died (rc=%d) after %d of %d lines: %s" % (rc1, k, len(impl.lines), e1[-300:]),
-                      replay_obj("lines", impl.lines[max(0, k - 1):k + 1]))
-        return
+    iout, crashes = run_resilient(unitp, impl.lines)
+    for k, rc1, e1 in crashes[:5]:
+        run.violation("unit:crash", "the implementation dies (rc=%d) on input line %d: %s ... %s" % (rc1, k, impl.lines[k][:80], e1[-300:]),
+                      replay_obj("lines", [l for l in (last_config(impl.lines, k), impl.lines[k]) if l]))
     # second stage of the rotation check needs the implementation's q
     for ro in rots:
         o = parse_impl(iout[ro["i"]])
@@ -586,6 +584,40 @@ def check(run):
     if rots:
         run.sample({"rotation": rots[0]["line"][:300], "out": iout[rots[0]["i"]][:300]})
     run.cov["correspondence"].update({"impl_lines": len(impl.lines), "model_lines": len(mod.lines)})
+
+
+def last_config(lines, k):
+    """the E line that a P line at index k refers to"""
+    if not lines[k].startswith("P"):
+        return None
+    for j in range(k - 1, -1, -1):
+        if lines[j].startswith("E"):
+            return lines[j]
+    return None
+
+
+def run_resilient(exe, lines, env=None):
+    """run the unit driver; when it dies on a line, record the crash, answer 'crash' for that line and go on with the
+    rest in a new process (re-sending the configuration line a following P line depends on)"""
+    out = []; crashes = []
+    start = 0
+    while start < len(lines) and len(crashes) <= 300:
+        pre = []
+        if lines[start].startswith("P"):
+            lc = last_config(lines, start)
+            if lc:
+                pre = [lc]
+        rc, o, e = V.run_lines(exe, pre + lines[start:], timeout=1500, env=env)
+        o = o[len(pre):] if len(o) >= len(pre) else []
+        out += o
+        if len(out) >= len(lines):
+            break
+        k = len(out)
+        crashes.append((k, rc, e))
+        out.append("crash")
+        start = k + 1
+    out += ["crash"] * (len(lines) - len(out))
+    return out[:len(lines)], crashes
 
 
 def sanitizer_pass(run, lines):
